@@ -52,6 +52,12 @@ def run(report, p):
                 r1.check(False, f, call, "a durable history file is opened for writing under its final name and written incrementally: a crash leaves a truncated / half-written file that the next load aborts on", witness="; ".join(show(o)[:160] for o in origs))
                 continue
             ok_all = True
+            # the temporary name is a fixed function of the final name: a killed run leaves it behind, so it must be re-creatable
+            # (the manifest's name carries a fresh number and the time of the run, its temporary does not recur; the chain file's does)
+            if f is not writers(p)[0]:
+                r1.check(mode is not None and "x" not in mode, f, call, f"the temporary file is opened with exclusive-create mode {mode!r}: the temporary a killed run leaves behind makes every later run on this history abort with FileExistsError", construct=f"exclusive create of temporary ({mode})")
+            elif mode is not None and "x" in mode:
+                r1.note(f"{f.loc(call)}: manifest temporary opened with exclusive create ({mode}); its name is fresh per run, so not a finding")
             for o in tmp_forms:
                 final, suffix = o[2][0], o[2][1][1]
                 bad_suffix = suffix.endswith(ext) or "/" in suffix or suffix in ("",)
